@@ -29,6 +29,23 @@ Proof.
   cbn. f_equal. apply negate_sound; exact H.
 Qed.
 
+(* applying negate twice gives back the meaning of p (not necessarily the same object: negate(negate(is_int_p)) is ~~is_int_p unwrapped) *)
+Corollary negate_negate W p x :
+  defined W p x = true ->
+  defined W (negate (negate p)) x = true /\ beval W (negate (negate p)) x = beval W p x.
+Proof.
+  intros H. destruct (negate_complement W p x H) as [H1 H2].
+  destruct (negate_complement W (negate p) x H1) as [H3 H4].
+  split; [exact H3|]. rewrite H4, H2. apply negb_involutive.
+Qed.
+
+(* p and negate(p) are never both true and never both false: they partition the domain of p *)
+Corollary negate_partition W p x :
+  defined W p x = true -> xorb (beval W p x) (beval W (negate p) x) = true.
+Proof.
+  intros H. destruct (negate_complement W p x H) as [_ H2]. rewrite H2. destruct (beval W p x); reflexivity.
+Qed.
+
 (* negate never returns a double negation it could have unwrapped, and is an involution up to == on duals *)
 Lemma negate_not p : negate (PNot p) = p. Proof. reflexivity. Qed.
 
